@@ -212,7 +212,7 @@ package lastgersync
 //@ extern github.com/ethereum/go-ethereum/common.BigToHash@lastgersync.(*downloaderFEP).populateGreatestInjectedGER (b)
 //@   requires b != nil
 //@   modifies nothing
-//@   ensures bigval(b) == 0 ==> result == aggkitcommon.ZeroHash
+//@   ensures (0 <= bigval(b) && bigval(b) < 115792089237316195423570985008687907853269984665640564039457584007913129639936) ==> ((bigval(b) == 0) == (result == aggkitcommon.ZeroHash))
 //@ func (d *downloaderFEP) populateGreatestInjectedGER
 //@   props C16
 //@   requires d != nil && d.l2GERManager != nil && d.rh != nil && b != nil && forall(k, 0, len(gerInfos), gerInfos[k] != nil)
